@@ -285,11 +285,24 @@ class Run:
         to = P.get("harness_timeout_s", {"quick": 240, "thorough": 1500})[tier]
         env = dict(os.environ, GOMEMLIMIT="6GiB", GORACE="halt_on_error=0 exitcode=66")
         rc, out, s = sh(cmd, timeout=to, env=env)
-        race = "WARNING: DATA RACE" in out
+        # data-race reports: each report block is either attributed to an open known finding by the property's
+        # classify_race (counted, printed as KNOWN-FINDING) or it is something that no longer checks
+        blocks = out.split("WARNING: DATA RACE")[1:]
+        unknown = []
+        for b in blocks:
+            b = b.split("==================")[0]
+            pat = P.get("classify_race", lambda text: None)(b)
+            if pat is not None and pat in self.known_open:
+                self.known[pat] = self.known.get(pat, 0) + 1
+            else:
+                unknown.append(b)
+        race = bool(unknown)
+        if blocks and not unknown and rc == 66:
+            rc = 0   # GORACE exitcode=66: only known races were reported
         self.step("run harness %s tier=%s seed=%s" % (P["harness"], tier, seed), rc == 0 and not race, s, out)
         if race:
             self.broken.append({"kind": "correspondence", "name": "data race reported by the Go race detector",
-                                "detail": out[out.find("WARNING: DATA RACE"):][:1500]})
+                                "detail": ("WARNING: DATA RACE" + unknown[0])[:1500]})
         elif rc != 0:
             self.broken.append({"kind": "correspondence", "name": "harness exit %d" % rc, "detail": out[-1500:]})
         cases, stats, notes = [], {}, []
